@@ -16,16 +16,22 @@ import (
 	"math/big"
 	"os"
 	"path/filepath"
+	"strings"
 	"sync"
 	"time"
 
 	api "k8s.io/api/core/v1"
 	networking "k8s.io/api/networking/v1"
 	metav1 "k8s.io/apimachinery/pkg/apis/meta/v1"
+	"k8s.io/apimachinery/pkg/api/meta"
 	"k8s.io/apimachinery/pkg/runtime"
 	clientgoscheme "k8s.io/client-go/kubernetes/scheme"
 	"sigs.k8s.io/controller-runtime/pkg/client"
+	"sigs.k8s.io/controller-runtime/pkg/client/apiutil"
 	"sigs.k8s.io/controller-runtime/pkg/client/fake"
+	"sigs.k8s.io/controller-runtime/pkg/client/interceptor"
+	gatewayv1 "sigs.k8s.io/gateway-api/apis/v1"
+	gatewayv1alpha2 "sigs.k8s.io/gateway-api/apis/v1alpha2"
 
 	"github.com/jcmoraisjr/haproxy-ingress/pkg/controller/config"
 	"github.com/jcmoraisjr/haproxy-ingress/pkg/controller/services"
@@ -40,6 +46,8 @@ type CfgIn struct {
 	Watch          bool   `json:"watch_ingress_without_class"`
 	Prec           bool   `json:"ingress_class_precedence"`
 	AllowCrossNs   bool   `json:"allow_cross_namespace"`
+	// Gateway enables the Gateway API v1 and TCPRoute v1alpha2 (types in the scheme, cache and converters)
+	Gateway bool `json:"gateway,omitempty"`
 }
 
 // Env is one running controller core: fake cluster + real cache facade.
@@ -69,6 +77,50 @@ func Scheme() *runtime.Scheme {
 	return scheme
 }
 
+var gwSchemeOnce sync.Once
+var gwScheme *runtime.Scheme
+
+// GatewayScheme is Scheme plus the Gateway API v1 and v1alpha2 types.
+func GatewayScheme() *runtime.Scheme {
+	gwSchemeOnce.Do(func() {
+		gwScheme = runtime.NewScheme()
+		Must(clientgoscheme.AddToScheme(gwScheme))
+		Must(gatewayv1.Install(gwScheme))
+		Must(gatewayv1alpha2.Install(gwScheme))
+	})
+	return gwScheme
+}
+
+// stamp makes the fake client fill TypeMeta on Get and List results the way
+// controller-runtime's informer cache does (the gateway converter reads the Kind of a route).
+func stamp(scheme *runtime.Scheme) interceptor.Funcs {
+	return interceptor.Funcs{
+		Get: func(ctx context.Context, c client.WithWatch, key client.ObjectKey, obj client.Object, opts ...client.GetOption) error {
+			if err := c.Get(ctx, key, obj, opts...); err != nil {
+				return err
+			}
+			if gvk, err := apiutil.GVKForObject(obj, scheme); err == nil {
+				obj.GetObjectKind().SetGroupVersionKind(gvk)
+			}
+			return nil
+		},
+		List: func(ctx context.Context, c client.WithWatch, list client.ObjectList, opts ...client.ListOption) error {
+			if err := c.List(ctx, list, opts...); err != nil {
+				return err
+			}
+			if gvk, err := apiutil.GVKForObject(list, scheme); err == nil {
+				gvk.Kind = strings.TrimSuffix(gvk.Kind, "List")
+				items, _ := meta.ExtractList(list)
+				for _, it := range items {
+					it.GetObjectKind().SetGroupVersionKind(gvk)
+				}
+				_ = meta.SetList(list, items)
+			}
+			return nil
+		},
+	}
+}
+
 // NewEnv builds the real cache facade over a fake client holding objs. dir is a
 // scratch directory (certificates are written below it).
 func NewEnv(dir string, in CfgIn, objs ...client.Object) *Env {
@@ -95,7 +147,14 @@ func NewEnv(dir string, in CfgIn, objs ...client.Object) *Env {
 		BackendShards:            0,
 	}
 	ctx := context.Background()
-	cli := fake.NewClientBuilder().WithScheme(Scheme()).WithObjects(objs...).Build()
+	var cli client.WithWatch
+	if in.Gateway {
+		cfg.HasGatewayV1 = true
+		cfg.HasTCPRouteA2 = true
+		cli = fake.NewClientBuilder().WithScheme(GatewayScheme()).WithInterceptorFuncs(stamp(GatewayScheme())).WithObjects(objs...).Build()
+	} else {
+		cli = fake.NewClientBuilder().WithScheme(Scheme()).WithObjects(objs...).Build()
+	}
 	tr := tracker.NewTracker()
 	// the same initialisation as Services.setup
 	dyn := &convtypes.DynamicConfig{StaticCrossNamespaceSecrets: cfg.AllowCrossNamespace}
